@@ -418,7 +418,19 @@ func (w *world) obsProps() M {
 
 // chainLen counts the links of an owner's property chain by walking the (unexported) fields with
 // reflection: owner.propertyImpl.properties -> *valueProperty{chain, key, val} -> ... (read-only).
+// chainLen measures an owner's stored property state through its private representation (a chain of
+// valueProperty links hanging off propertyImpl.properties). If the representation is not the one this was
+// written against, the growth clause cannot be measured: that is reported as a failure of the machinery, never
+// silently accepted.
 func chainLen(owner interface{}) int {
+	n := chainLen1(owner)
+	if n < 0 {
+		derr("property storage of %T is not the propertyImpl/valueProperty chain this driver measures", owner)
+	}
+	return n
+}
+
+func chainLen1(owner interface{}) int {
 	v := reflect.ValueOf(owner)
 	for v.Kind() == reflect.Ptr || v.Kind() == reflect.Interface {
 		if v.IsNil() {
@@ -434,6 +446,9 @@ func chainLen(owner interface{}) int {
 		return -1
 	}
 	cur := pi.FieldByName("properties")
+	if !cur.IsValid() {
+		return -1
+	}
 	n := 0
 	for depth := 0; depth < 100000; depth++ {
 		for cur.Kind() == reflect.Interface || cur.Kind() == reflect.Ptr {
@@ -442,8 +457,8 @@ func chainLen(owner interface{}) int {
 			}
 			cur = cur.Elem()
 		}
-		if cur.Kind() != reflect.Struct || cur.Type().Name() != "valueProperty" {
-			return n
+		if cur.Kind() != reflect.Struct || cur.Type().Name() != "valueProperty" || !cur.FieldByName("chain").IsValid() {
+			return -1
 		}
 		n++
 		cur = cur.FieldByName("chain")
